@@ -129,8 +129,9 @@ PROPERTIES = {
     ),
     'C03': dict(
         units=['active_peers', 'crypto', 'wire', 'enum_glue'],
-        canaries=['dialing', 'streams'],
+        canaries=['dialing', 'streams', 'crypto'],
         extra=[validate.history_c03, validate.cert_corpus],
+        counterexample=cex.cex_cert,
         scope='glue only: (a) the pinning verifier accepts a server certificate only if its public key is the expected identity AND the base verifier accepts it, '
               'and proof of key possession (handshake signature) is delegated unchanged to rustls restricted to Ed25519; (b) a dial with an expected identity goes through '
               'connect_with_expected_peer_id(addr, id), one without through connect(addr); (c) a successful result registers the connection in the active-peer set and THEN answers '
@@ -153,8 +154,9 @@ PROPERTIES = {
     ),
     'C01': dict(
         units=['crypto', 'wire', 'enum_glue'],
-        canaries=['streams'],
+        canaries=['streams', 'crypto'],
         extra=[validate.cert_corpus],
+        counterexample=cex.cex_cert,
         scope='GLUE ONLY (cryptography and X.509 parsing are uninterpreted): the PeerId of a connection is the public key parsed from the FIRST certificate of '
               'the chain authenticated in that connection\'s own handshake; every handshake-signature callback delegates unchanged to rustls restricted to Ed25519 '
               '(never accepts unconditionally, never widens the algorithm list); client authentication is offered and mandatory; the pinning verifier requires key == expected identity; '
